@@ -356,7 +356,7 @@ func mutDyn(dm *dynamic.Message, pass string, depth int) int {
 	if md == nil {
 		return 0
 	}
-	for _, fd := range md.GetFields() {
+	for _, fd := range dynFields(dm) {
 		has := dm.HasField(fd)
 		switch {
 		case fd.IsMap():
